@@ -98,7 +98,10 @@ def restart(binary, d, keylen):
 def one_fault(binary, work, idx, keylen, old, op, new, fsize, killat, sysinject):
     d = os.path.join(work, "f%d" % idx)
     os.makedirs(d)
-    args = ["-mode", "save", "-dir", d, "-keylen", str(keylen), "-old", ",".join("%s=%s" % kv for kv in sorted(old.items())), "-op", op]
+    oldarg = "@empty" if old == {"@empty": True} else ",".join("%s=%s" % kv for kv in sorted(old.items()))
+    if old == {"@empty": True}:
+        old = {}      # a store file of zero bytes holds no users
+    args = ["-mode", "save", "-dir", d, "-keylen", str(keylen), "-old", oldarg, "-op", op]
     if fsize is not None:
         args += ["-fsize", str(fsize)]
     if killat:
@@ -185,7 +188,17 @@ def run(tier, seed, replay):
     if unknown:
         v.notes.append("file operations on the store directory that the model does not know: %s" % unknown[:3])
     if not ops:
-        raise vlib.Broken("strace shows no file operation of the save")
+        # the traced process added a user, was told so, then shut down: if nothing at all was written, that acknowledged
+        # change is not in the store - which is C20's own statement, decided by a real restart on that directory
+        r0 = restart(childbin, os.path.join(work, "strace-dir"), 32)
+        users0 = (r0.get("users") or {}) if isinstance(r0, dict) else {}
+        if r0.get("loaded") and users0.get("B") in (None, "-"):
+            v.violation("cred.shutdown/acknowledged-change-not-saved", "a process added a user through the API, was told it succeeded, and shut down cleanly; "
+                        "no file operation was made and the restarted server does not know the user", {"old": {"A": "k1"}, "op": "add:B=k2", "after_restart": r0})
+            v.notes.append("the save made no file operation under strace; the fault enumeration goes on with the file operations of the repaired code")
+            ops = ["creat_tmp", "write_tmp", "chmod_tmp", "sync_tmp", "rename_tmp_path"]
+        else:
+            raise vlib.Broken("strace shows no file operation of the save (restart: %s)" % str(r0)[:300])
     modelled = [o for o in ops if o in ("trunc_path", "write_path", "creat_tmp", "write_tmp", "sync_tmp", "chmod_tmp", "rename_tmp_path", "unlink_path",
                                         "rename_path_away")]
 
@@ -200,7 +213,9 @@ def run(tier, seed, replay):
     # (3) fault enumeration on the real code
     plans = []
     stores = [({}, "add:A=k1", {"A": "k1"}), ({"A": "k1"}, "add:B=k2", {"A": "k1", "B": "k2"}), ({"A": "k1", "B": "k2"}, "del:A", {"B": "k2"}),
-              ({"A": "k1", "B": "k2", "C": "k3"}, "upd:B=k4", {"A": "k1", "B": "k4", "C": "k3"}), ({"A": "k1"}, "del:A", {})]
+              ({"A": "k1", "B": "k2", "C": "k3"}, "upd:B=k4", {"A": "k1", "B": "k4", "C": "k3"}), ({"A": "k1"}, "del:A", {}),
+              # the very first save of a freshly provisioned store: the file exists and has zero bytes
+              ({"@empty": True}, "add:A=k1", {"A": "k1"})]
     hookpoints = ["cred.saver.beforeSave", "cred.save.beforeWrite", "cred.save.afterWrite", "cred.save.beforeRename", "cred.save.afterRename", "cred.saver.afterSave"]
     # SIGKILL on entering the i-th invocation of each of these system calls (every invocation the save makes)
     killsys = [(s, i) for s in ("fchmod", "fsync", "fdatasync", "renameat", "rename", "renameat2", "unlinkat", "unlink", "ftruncate", "link", "linkat")
@@ -208,7 +223,7 @@ def run(tier, seed, replay):
     for si, (old, op, new) in enumerate(stores):
         for keylen in ((16, 32) if big or si == 1 else (32,)):
             doclen = 4 + sum(12 + (24 if keylen == 16 else 44) for _ in new) + 2
-            ks = list(range(0, doclen + 3)) if (big or si in (1, 4)) else sorted(set(list(range(0, 6)) + list(range(doclen - 4, doclen + 2)) + [doclen // 2]))
+            ks = list(range(0, doclen + 3)) if (big or si in (1, 4, 5)) else sorted(set(list(range(0, 6)) + list(range(doclen - 4, doclen + 2)) + [doclen // 2]))
             plans.append((keylen, old, op, new, None, None, None))
             for k in ks:
                 plans.append((keylen, old, op, new, k, None, None))
